@@ -277,7 +277,88 @@ def gen_request(rng, desc, depth=3):
 # worlds
 
 MESSAGES = ["boom", "", "nö ✓", "line1\nline2", "x" * 40]
-EXTENSIONS = [None, None, {}, {"code": "E1"}, {"code": 42, "nested": {"a": [1, None, "z"]}}, {"f": 1.5}]
+import collections
+import collections.abc
+import types
+
+
+class MyMapping(collections.abc.Mapping):
+    """an application's own read-only Mapping (the signature of ResolverError is Optional[Mapping[str, Any]])"""
+
+    def __init__(self, d):
+        self._d = d
+
+    def __getitem__(self, k):
+        return self._d[k]
+
+    def __iter__(self):
+        return iter(self._d)
+
+    def __len__(self):
+        return len(self._d)
+
+
+# factories: every call gives a FRESH object, so nothing the library (or a server decorating a response) does to the
+# object handed to the error can leak into the pristine value the oracle compares with
+EXT_FACTORIES = [
+    lambda: None, lambda: None, lambda: {}, lambda: {"code": "E1"},
+    lambda: {"code": 42, "nested": {"a": [1, None, "z"]}}, lambda: {"f": 1.5},
+    lambda: types.MappingProxyType({"code": "RO", "n": 1}),
+    lambda: MyMapping({"code": "MINE", "list": [1, [2, {"k": None}]]}),
+    lambda: collections.OrderedDict([("z", 1), ("a", {"deep": [True, 0.5, "s"]})]),
+    lambda: types.MappingProxyType({}),
+    lambda: {"tuple": (1, 2), "items": [{"a": 1}, {"b": [None]}]},
+]
+
+
+def render(err):
+    """what an error-logging layer does with an error before letting it continue"""
+    err.to_dict()
+    str(err)
+    repr(err)
+
+
+# module-level constant errors (NOT_FOUND = ResolverError(...)): created once per process, serialised right away
+CONSTANTS = {}
+
+
+def constant_error(msg, idx):
+    from py_gql.exc import ResolverError
+    key = (msg, idx)
+    err = CONSTANTS.get(key)
+    if err is None:
+        ext = EXT_FACTORIES[idx]()
+        err = CONSTANTS[key] = ResolverError(msg) if ext is None else ResolverError(msg, extensions=ext)
+        render(err)
+    return err
+
+
+def logging_middleware(next_, root, ctx, info, **args):
+    """logs (renders) every ResolverError and re-raises it; handles plain values, awaitables and futures"""
+    import inspect
+    from concurrent.futures import Future
+    from py_gql.exc import ResolverError
+    try:
+        r = next_(root, ctx, info, **args)
+    except ResolverError as e:
+        render(e)
+        raise
+    if isinstance(r, Future):
+        def cb(f):
+            e = f.exception()
+            if isinstance(e, ResolverError):
+                render(e)
+        r.add_done_callback(cb)
+        return r
+    if inspect.isawaitable(r):
+        async def wrapped():
+            try:
+                return await r
+            except ResolverError as e:
+                render(e)
+                raise
+        return wrapped()
+    return r
 
 
 class World:
@@ -341,11 +422,13 @@ class World:
         rng = self.rng_for(path)
         if rng.random() < self.p_raise:
             msg = rng.choice(MESSAGES)
-            ext = rng.choice(EXTENSIONS)
+            idx = rng.randrange(len(EXT_FACTORIES))
             # 0: fresh ResolverError, 1: fresh application subclass, 2: ONE shared instance per (message, extensions)
-            # raised again and again (a module-level constant such as NOT_FOUND), 3: fresh, constructed with a bogus path
-            cls = rng.choice([0, 1, 2, 2, 3])
-            return ("raised", msg, ext, cls)
+            # raised again and again within the request, 3: fresh, constructed with a bogus path, 4: a MODULE-LEVEL constant
+            # (lives across requests and configurations) that was serialised when it was created, 5: fresh, rendered
+            # (to_dict/str/repr) by the resolver itself before it is raised
+            cls = rng.choice([0, 1, 2, 2, 3, 4, 4, 5])
+            return ("raised", msg, EXT_FACTORIES[idx](), cls, idx)
         return ("value", self.value_of(ftype, rng))
 
     def run(self, info, ftype):
@@ -356,18 +439,22 @@ class World:
         o = self.outcome(path, ftype)
         self.calls.append((path, ftype, [n.loc[0] for n in info.nodes], o))
         if o[0] == "raised":
+            ext = EXT_FACTORIES[o[4]]()      # the object handed to the library; o[2] stays pristine
             if o[3] == 2:
-                key = (o[1], repr(o[2]))
+                key = (o[1], o[4])
                 err = self.shared.get(key)
                 if err is None:
-                    err = self.shared[key] = ResolverError(o[1]) if o[2] is None else ResolverError(o[1], extensions=o[2])
+                    err = self.shared[key] = ResolverError(o[1]) if ext is None else ResolverError(o[1], extensions=ext)
                 raise err
+            if o[3] == 4:
+                raise constant_error(o[1], o[4])
             if o[3] == 3:
-                raise ResolverError(o[1], path=["bogus", 0], extensions=o[2])
+                raise ResolverError(o[1], path=["bogus", 0], extensions=ext)
             cls = _MyError() if o[3] == 1 else ResolverError
-            if o[2] is None:
-                raise cls(o[1])
-            raise cls(o[1], extensions=o[2])
+            err = cls(o[1]) if ext is None else cls(o[1], extensions=ext)
+            if o[3] == 5:
+                render(err)
+            raise err
         return o[1]
 
 
